@@ -428,8 +428,7 @@ for _mf in sorted(_glob.glob(_os.path.join(_HERE, "seeded", "*", "meta.json"))):
                      [("@patch", _os.path.join(_os.path.dirname(_mf), "patch.diff"), "")], _meta.get("change", "")[:120], any_rule=True))
 
 # refactorings for which the analysis answers *unrecognised* (documented in DESIGN 11.12): not run as neutral edits
-NEUTRAL_UNRECOGNISED = {"C18s/refactor2.diff": "item totals kept in a struct with its own operator+=",
-                        "C18e/refactor4.diff": "item totals kept in a struct with default member initialisers (DESIGN 11.14)"}
+NEUTRAL_UNRECOGNISED = {}
 for _pf in sorted(_glob.glob(_os.path.join(_HERE, "neutral", "*", "refactor*.diff"))):
     _dir = _os.path.basename(_os.path.dirname(_pf))
     _prop = _dir[:3]
